@@ -229,9 +229,15 @@ impl BuildDatabase {
                 .push(build);
         }
 
-        // Sort each product's builds by build_time (newest first)
+        // Sort each product's builds by build_time (newest first). Timestamps are
+        // compared as instants, not as strings: with different UTC offsets the
+        // lexicographic order is not the chronological one. Timestamps that do not
+        // have the RFC 3339 shape sort after the others, by string.
         for builds in builds_by_product.values_mut() {
-            builds.sort_by(|a, b| b.build_time.cmp(&a.build_time));
+            builds.sort_by_cached_key(|build| {
+                let instant = parse_build_time(&build.build_time);
+                std::cmp::Reverse((instant.is_some(), instant, build.build_time.clone()))
+            });
         }
 
         let total_builds = builds_by_product.values().map(Vec::len).sum();
@@ -269,6 +275,63 @@ impl BuildDatabase {
     pub const fn loaded_at(&self) -> SystemTime {
         self.loaded_at
     }
+}
+
+/// Seconds since the Unix epoch for an RFC 3339 timestamp
+/// (`YYYY-MM-DDTHH:MM:SS[.fff](Z|+HH:MM|-HH:MM)`), or `None` for any other shape.
+fn parse_build_time(ts: &str) -> Option<i64> {
+    let b = ts.as_bytes();
+    if b.len() < 20
+        || b[4] != b'-'
+        || b[7] != b'-'
+        || !matches!(b[10], b'T' | b't')
+        || b[13] != b':'
+        || b[16] != b':'
+    {
+        return None;
+    }
+    let num = |range: std::ops::Range<usize>| -> Option<i64> {
+        let digits = ts.get(range)?;
+        if digits.bytes().all(|c| c.is_ascii_digit()) {
+            digits.parse().ok()
+        } else {
+            None
+        }
+    };
+    let (year, month, day) = (num(0..4)?, num(5..7)?, num(8..10)?);
+    let (hour, minute, second) = (num(11..13)?, num(14..16)?, num(17..19)?);
+    if !(1..=12).contains(&month) || !(1..=31).contains(&day) {
+        return None;
+    }
+
+    // Optional fractional seconds
+    let mut i = 19;
+    if b.get(i) == Some(&b'.') {
+        i += 1;
+        while b.get(i).is_some_and(u8::is_ascii_digit) {
+            i += 1;
+        }
+    }
+
+    let offset = match *b.get(i)? {
+        b'Z' | b'z' if i + 1 == b.len() => 0,
+        sign @ (b'+' | b'-') if b.len() == i + 6 && b[i + 3] == b':' => {
+            let seconds = num(i + 1..i + 3)? * 3600 + num(i + 4..i + 6)? * 60;
+            if sign == b'+' { seconds } else { -seconds }
+        }
+        _ => return None,
+    };
+
+    // Days since 1970-01-01 for a proleptic Gregorian date
+    let y = if month <= 2 { year - 1 } else { year };
+    let era = y.div_euclid(400);
+    let year_of_era = y - era * 400;
+    let month_index = if month > 2 { month - 3 } else { month + 9 };
+    let day_of_year = (153 * month_index + 2) / 5 + day - 1;
+    let day_of_era = year_of_era * 365 + year_of_era / 4 - year_of_era / 100 + day_of_year;
+    let days = era * 146_097 + day_of_era - 719_468;
+
+    Some(days * 86_400 + hour * 3600 + minute * 60 + second - offset)
 }
 
 #[cfg(test)]
